@@ -1,0 +1,17 @@
+//go:build verif
+
+package hpack
+
+// Decoder.Write, the save-for-later path (C03): when the last representation of the chunk is only
+// truncated (parseHeaderFieldRepr reported errNeedMore), Write reports the whole chunk as consumed
+// (the rest is saved), unless a maximum string length is set and the rest is longer
+// than two maximal strings plus their length prefixes (2*(maxStrLen+8)): only then is a truncated
+// field refused with ErrStringLength. A literal field carries two strings, so a smaller bound would
+// refuse valid fields depending on where the input happens to be split.
+//
+//@ extend (*Decoder).Write(d, p) (n, err)
+//@   ghost nm += 1 after call parseHeaderFieldRepr when $r0 == errNeedMore
+//@   ensures  ghost(nm) <= 1
+//@   ensures  ghost(nm) == 1 && err == ErrStringLength ==> d.maxStrLen != 0 && int64(len(d.buf)) > 2*(int64(d.maxStrLen)+8)
+//@   ensures  ghost(nm) == 1 && !(d.maxStrLen != 0 && int64(len(d.buf)) > 2*(int64(d.maxStrLen)+8)) ==> err == nil && n == len(p)
+//@   loop 1 invariant ghost(nm) == 0
